@@ -731,7 +731,15 @@ def run(ctx):
                 'up to depth 3; ~85% structured sequences, ~15% malformed (wrong shapes, None/scalar states under slices, '
                 'out-of-range indices, complex into int); after EVERY op: outcome class, all states/sensitivities/variables/'
                 'watched slice getters and the np.shares_memory relation are compared in Coq. A sequence is non-trivial '
-                'when it contains an add_sensitivity or an assignment through a slice; distinct by op text')
+                'when it contains an add_sensitivity or an assignment through a slice; distinct by op text. '
+                'Implementation-side oracle (search only): enumerated on every run: scripted and random histories on root '
+                'signals whose first / later contributions are rank-0 arrays, numpy and python scalars, C / Fortran / '
+                'strided arrays of rank 1..3 in int64, float64, complex128 (aliasing, same object to two signals, '
+                'mutation afterwards, reset with and without kept allocation, signals constructed with a sensitivity); '
+                'every slice form of a fixed catalogue (basic, stepped, negative, tuples, integers, Ellipsis, rank-0 views '
+                '(i, ...), integer arrays, boolean masks, nested paths) x base dtype x every contribution-dtype order the '
+                'base dtype can hold (int-then-float, real-then-complex, float-then-complex, ...) x add/assign patterns '
+                'x value kinds, against a flat plain-numpy reference; rank-0 array states')
     ctx.assumptions += ['numpy index semantics is an oracle (table of selected positions, view/copy/scalar/IndexError per '
                         '(index object, parent shape)), validated on independent data each run',
                         'general numpy broadcasting (unequal but broadcastable shapes) and silent complex->int truncation on '
@@ -811,6 +819,7 @@ def run(ctx):
 # ----------------------------------------------------------------------------- implementation-side property oracle
 def oracle(ctx, pym, more=False):
     """the property text, stated on the implementation with plain numpy arrays"""
+    stress_oracle(ctx, pym)
     rng = np.random.default_rng(ctx.seed + 1)
     prng = ctx.rng
     n = 1500 if not more else 8000
@@ -1011,6 +1020,480 @@ def oracle(ctx, pym, more=False):
             one_seq()
         except Exception as e:
             bad('protocol operations on well-formed slices do not raise', 'exception', dict(error=repr(e)[:300]))
+
+
+# ----------------------------------------------------------------------------- deliberate stress cases (every run)
+# Plain-numpy reference semantics of the property text: every signal holds a PRIVATE value (nothing it holds is shared
+# with a caller's object or another signal), contributions accumulate like `private += ds` on plain arrays, a slice
+# addresses exactly the flat positions numpy selects.  The cases below are enumerated, not drawn: rank-0 arrays, numpy
+# and python scalars and arrays of rank 1..3 (int64 / float64 / complex128, C / Fortran / strided) as first and later
+# contributions; every slice form on every base dtype with every contribution-dtype order the base dtype can hold.
+DT = {'i': np.int64, 'f': np.float64, 'c': np.complex128}
+DTRANK = {'i': 0, 'f': 1, 'c': 2}
+
+
+def desc(x):
+    if x is None:
+        return 'None'
+    if is_arr(x):
+        return f'np.array({x.tolist()!r}, dtype={x.dtype}) [ndarray shape={x.shape}]'
+    return f'{type(x).__module__.split(".")[0]}.{type(x).__name__}({x!r})'.replace('builtins.', '')
+
+
+class ValSource:
+    """small non-zero integers, deterministic per run (every entry differs from 0, 77 and -77)"""
+
+    def __init__(self, rng):
+        self.rng = rng
+
+    def one(self, dt):
+        r = self.rng.choice((-1, 1)) * self.rng.randint(1, 9)
+        if dt == 'c':
+            return complex(r, self.rng.choice((-1, 1)) * self.rng.randint(1, 9))
+        return float(r) if dt == 'f' else int(r)
+
+    def make(self, kind, dt, shape=()):
+        """kind: py (python scalar) | np (numpy scalar) | a0 (rank-0 ndarray) | arr | arrF (Fortran order) |
+        view (strided view of a larger array)"""
+        if kind == 'py':
+            return self.one(dt)
+        if kind == 'np':
+            return DT[dt](self.one(dt))
+        if kind == 'a0':
+            return np.array(self.one(dt), dtype=DT[dt])
+        n = int(np.prod(shape)) if len(shape) else 1
+        if kind == 'view':
+            big = np.array([self.one(dt) for _ in range(2 * n)], dtype=DT[dt]).reshape((2 * shape[0],) + tuple(shape[1:]))
+            return big[::2]
+        a = np.array([self.one(dt) for _ in range(n)], dtype=DT[dt]).reshape(shape)
+        return np.asfortranarray(a) if kind == 'arrF' else a
+
+
+def same_value(got, exp):
+    if got is None or exp is None:
+        return got is None and exp is None
+    try:
+        return np.shape(got) == np.shape(exp) and bool(np.array_equal(np.asarray(got), np.asarray(exp))) \
+            and np.asarray(got).dtype.kind == np.asarray(exp).dtype.kind
+    except Exception:
+        return False
+
+
+class RootHistory:
+    """operations on root Signals against private plain values (the reference)"""
+
+    def __init__(self, pym, nsig, vals):
+        self.names = ['a', 'b', 'c'][:nsig]
+        self.sigs = {n: pym.Signal(n) for n in self.names}
+        self.exp = {n: None for n in self.names}
+        self.vals = dict(vals)
+        self.expv = {k: copy.deepcopy(v) for k, v in vals.items()}
+        self.log = [f'{k} = {desc(v)}' for k, v in vals.items()] + [f"{n} = pym.Signal('{n}')" for n in self.names]
+
+    def ref_add(self, cur, v):
+        if cur is None:
+            return copy.deepcopy(v)
+        if is_arr(cur):
+            new = cur.copy()
+            new += v
+            return new
+        return cur + v
+
+    def step(self, op):
+        """returns None or (predicate, input_class, expected, got)"""
+        kind = op[0]
+        raised = None
+        if kind == 'add':
+            _, s, v = op
+            self.log.append(f'{s}.add_sensitivity({v})')
+            try:
+                new = self.ref_add(self.exp[s], self.expv[v])
+                exp_exc = None
+            except (TypeError, ValueError) as e:
+                new, exp_exc = self.exp[s], type(e)
+            try:
+                self.sigs[s].add_sensitivity(self.vals[v])
+            except Exception as e:
+                raised = e
+            if exp_exc is not None:
+                if raised is None or not isinstance(raised, (TypeError, ValueError)):
+                    return ('a contribution plain numpy rejects (dtype/shape) is rejected', 'root-history',
+                            exp_exc.__name__, repr(raised))
+                raised = None
+            self.exp[s] = new
+        elif kind == 'reset':
+            _, s, keep = op
+            self.log.append(f'{s}.reset({"" if keep is None else keep})')
+            try:
+                self.sigs[s].reset() if keep is None else self.sigs[s].reset(keep)
+            except Exception as e:
+                raised = e
+            if self.exp[s] is not None:
+                self.exp[s] = (self.exp[s] * 0) if keep else None
+        elif kind == 'mut':
+            _, v, c = op
+            self.log.append(f'{v}[...] = {c}')
+            self.vals[v][...] = c
+            self.expv[v] = np.full_like(self.expv[v], c)
+        if raised is not None:
+            return ('protocol operations on well-formed values do not raise', 'root-history', None, repr(raised)[:300])
+        return self.verify(op)
+
+    def verify(self, op):
+        objs = [(f'{n}.sensitivity', self.sigs[n].sensitivity) for n in self.names] + list(self.vals.items())
+        for a in range(len(self.names)):
+            for b in range(a + 1, len(objs)):
+                if is_arr(objs[a][1]) and (objs[a][1] is objs[b][1] or overlap(objs[a][1], objs[b][1])):
+                    return ('a value passed to add_sensitivity is never aliased', 'root-history',
+                            'no shared memory', f'{objs[a][0]} shares memory with {objs[b][0]}')
+        for k, v in self.vals.items():
+            if not same_value(v, self.expv[k]):
+                return ('a value passed to add_sensitivity is never aliased: the caller\'s object is not changed by '
+                        'later operations on the signal', 'root-history', desc(self.expv[k]), f'{k} = {desc(v)}')
+        addressed = op[1] if op[0] in ('add', 'reset') else None
+        for n in self.names:
+            got = self.sigs[n].sensitivity
+            if not same_value(got, self.exp[n]):
+                if n != addressed:
+                    return ('what a signal holds is not changed by operations not addressed to it (changing ds '
+                            'afterwards, same object added to two signals)', 'root-history',
+                            desc(self.exp[n]), f'{n}.sensitivity = {desc(got)}')
+                return ('contributions accumulate / reset as on a private plain array', 'root-history',
+                        desc(self.exp[n]), f'{n}.sensitivity = {desc(got)}')
+        return None
+
+
+ROOT_SCENARIOS = [
+    [('add', 'a', 'd'), ('add', 'b', 'd'), ('add', 'a', 'e'), ('add', 'b', 'e'), ('mut', 'e', -77)],
+    [('add', 'a', 'd'), ('mut', 'd', 77), ('add', 'a', 'e')],
+    [('add', 'a', 'd'), ('add', 'b', 'd'), ('reset', 'a', True), ('add', 'a', 'd')],
+    [('add', 'a', 'd'), ('add', 'a', 'd'), ('add', 'a', 'd')],
+    [('add', 'a', 'd'), ('reset', 'a', True), ('add', 'a', 'e'), ('mut', 'e', -77), ('reset', 'a', False)],
+    [('add', 'a', 'd'), ('add', 'b', 'd'), ('add', 'b', 'e'), ('reset', 'b', None), ('add', 'b', 'd'), ('mut', 'd', 77)],
+    [('add', 'a', 'e'), ('add', 'a', 'd'), ('mut', 'd', 77), ('reset', 'a', True), ('mut', 'e', -77)],
+]
+
+
+def slice_catalog(shape):
+    """deliberately chosen index paths (lists of index objects, python order) for a base of this shape: every form the
+    property names (basic slices, tuples of slices, integer arrays without repeats, nested basic slices) plus integers,
+    Ellipsis, rank-0 views (i, ...), boolean masks and nested paths ending in each of them"""
+    S = slice
+    n0 = shape[0]
+    out = [[S(None)], [Ellipsis], [S(None, None, -1)], [S(None, None, 2)], [S(-2, None)], [(S(0, max(1, n0 - 1)),)],
+           [0], [-1], [np.array([n0 - 1, 0][:n0])], [np.array([-1])], [np.arange(n0) % 2 == 0],
+           [S(None), S(None)], [S(None, None, -1), S(0, 1)], [S(None), np.array([0])], [S(None, None, -1), 0]]
+    if len(shape) == 1:
+        out += [[(0, Ellipsis)], [(Ellipsis, -1)], [S(None, None, -1), (0, Ellipsis)], [(S(None),)], [S(1, None)],
+                [S(1, None), S(None, None, -1)], [Ellipsis, Ellipsis], [Ellipsis, np.array([0])]]
+    if len(shape) == 2:
+        n1 = shape[1]
+        out += [[(S(None), S(None))], [(S(0, 1), S(None, None, -1))], [(S(None), n1 - 1)], [(0, n1 - 1)],
+                [(0, n1 - 1, Ellipsis)], [(Ellipsis, 0)], [(-1, Ellipsis)], [(np.array([n0 - 1, 0][:n0]), S(None))],
+                [(S(None), np.array([n1 - 1, 0][:n1]))], [0, S(None, None, -1)], [0, 0], [0, (0, Ellipsis)],
+                [(S(None), 0), S(None, None, -1)], [S(None, None, -1), (S(None), np.array([0]))],
+                [(S(None), S(None, None, -1)), (0, 0)], [(S(None), S(None)), 0, np.array([n1 - 1])]]
+    if len(shape) == 3:
+        out += [[(0,)], [(S(None), 1, S(None))], [(Ellipsis, 0)], [(1, Ellipsis, 0)], [(0, 1, 1)], [(0, 1, 1, Ellipsis)],
+                [(S(None), np.array([1]), S(None))], [(np.array([1, 0]), S(None), 0)], [0, 1], [0, 1, 1],
+                [0, (S(None), 1)], [(S(None), S(None), 0), (1, Ellipsis)], [1, S(None, None, -1), np.array([0])],
+                [(Ellipsis, S(None, None, -1)), (0, 0), (1, Ellipsis)]]
+    good = []
+    for path in out:
+        cur = np.arange(int(np.prod(shape))).reshape(shape)
+        ok = True
+        try:
+            for d, p in enumerate(path):
+                nxt = cur[p]
+                if d < len(path) - 1 and not (is_arr(nxt) and nxt.size and np.shares_memory(nxt, cur)):
+                    ok = False       # a write through a slice of a COPY is lost by design (modelled, not a reference case)
+                    break
+                cur = nxt
+        except IndexError:
+            ok = False
+        if ok and np.size(cur) >= 1:
+            good.append((path, np.atleast_1d(np.asarray(cur)).ravel().copy(), np.shape(cur), is_arr(cur)))
+    return good
+
+
+# contribution-dtype orders a base of the given dtype can hold (plain numpy: same-kind casting into the base dtype)
+DTYPE_ORDERS = {'c': ['ic', 'fc', 'ifc', 'cf', 'cic', 'ff', 'c'], 'f': ['if', 'fi', 'ff', 'i'], 'i': ['ii', 'i']}
+HOW_PATTERNS = ['aaa', 'saa', 'asa']           # a = add_sensitivity through the slice, s = assignment through the slice
+KIND_PATTERNS = [('arr', 'arr', 'arr'), ('arr', 'py', 'a0'), ('a0', 'arr', 'np'), ('py', 'arr', 'arr')]
+STRESS_SHAPES = [(3,), (4,), (1,), (2, 3), (3, 1), (2, 2, 2)]
+
+
+def pstr(p):
+    if is_arr(p):
+        return f'np.array({p.tolist()})'
+    if isinstance(p, tuple):
+        return '(' + ', '.join(pstr(q) for q in p) + (',)' if len(p) == 1 else ')')
+    return '...' if p is Ellipsis else repr(p)
+
+
+def stress_oracle(ctx, pym):
+    import warnings
+    with warnings.catch_warnings():
+        warnings.simplefilter('ignore')       # a lossy cast shows up as a wrong value below, not as console noise
+        _stress_oracle(ctx, pym)
+
+
+def _stress_oracle(ctx, pym):
+    prng = ctx.rng
+    src = ValSource(prng)
+    budget = [12]                       # violations reported by this block (the first one becomes the replay)
+
+    def bad(pred, cls, case, expected=None, got=None):
+        if budget[0] > 0:
+            budget[0] -= 1
+            ctx.violation('impl-violates', 'Signal/SignalSlice', pred, cls, case, expected=expected, got=got)
+
+    # ---- A. root signals: first / later contributions of every value kind, scripted histories
+    firsts = [(k, dt, ()) for k in ('a0', 'np', 'py') for dt in 'ifc']
+    firsts += [(k, dt, shp) for dt in 'ifc' for k, shp in (('arr', (1,)), ('arr', (3,)), ('arr', (2, 2)), ('arr', (1, 1)),
+                                                          ('arr', (2, 1, 2)), ('arrF', (2, 3)), ('view', (3,)),
+                                                          ('view', (2, 2)))]
+    for k1, dt1, shp in firsts:
+        for k2 in ('a0', 'py', 'np', 'arr'):
+            for dt2 in 'ifc':
+                # a later contribution must fit the dtype of the (private copy of the) first one when that is an array
+                if k1 not in ('py', 'np') and DTRANK[dt2] > DTRANK[dt1]:
+                    continue
+                for sc, scen in enumerate(ROOT_SCENARIOS):
+                    ctx.search_evaluations += 1
+                    ctx.count('stress:root-history')
+                    d = src.make(k1, dt1, shp)
+                    e = src.make(k2 if k2 != 'arr' else ('arr' if shp else 'a0'), dt2, shp)
+                    h = RootHistory(pym, 2, dict(d=d, e=e))
+                    for op in scen:
+                        if op[0] == 'mut' and not is_arr(h.vals[op[1]]):
+                            continue
+                        r = h.step(op)
+                        if r:
+                            bad(r[0], 'root-history', dict(first=f'{k1}:{dt1}:{list(shp)}', later=f'{k2}:{dt2}',
+                                                            scenario=sc, operations=list(h.log)), r[2], r[3])
+                            break
+    # random histories over the same value kinds (three signals, pool of four values incl. rank-0 arrays)
+    for t in range(150 if ctx.quick() else 1500):
+        ctx.search_evaluations += 1
+        ctx.count('stress:root-history-random')
+        dt = prng.choice('ifc')
+        shp = prng.choice([(), (), (2,), (2, 2), (1,)])
+        pool = {}
+        for nm in 'defg':
+            k = prng.choice(('a0', 'arr', 'np', 'py')) if shp == () else prng.choice(('arr', 'arr', 'a0', 'py', 'arrF'))
+            k = 'a0' if (k in ('arr', 'arrF') and shp == ()) else k
+            pool[nm] = src.make(k, prng.choice('ifc'[:DTRANK[dt] + 1]), shp)
+        if shp != () and not is_arr(pool['d']) or (is_arr(pool['d']) and pool['d'].ndim == 0 and shp != ()):
+            pool['d'] = src.make('arr', dt, shp)      # first value of full shape and widest dtype: later ones broadcast into it
+        pool['d'] = pool['d'].astype(DT[dt]) if is_arr(pool['d']) else pool['d']
+        h = RootHistory(pym, 3, pool)
+        first_done = set()
+        for _ in range(14):
+            c = prng.random()
+            s = prng.choice(h.names)
+            if c < 0.55:
+                v = 'd' if s not in first_done else prng.choice('defg')
+                first_done.add(s)
+                op = ('add', s, v)
+            elif c < 0.75:
+                op = ('reset', s, prng.choice((None, True, False)))
+                if op[2] is not True:
+                    first_done.discard(s)
+            else:
+                v = prng.choice('defg')
+                if not is_arr(h.vals[v]):
+                    continue
+                op = ('mut', v, prng.choice((77, -77, 5)))
+            r = h.step(op)
+            if r:
+                bad(r[0], 'root-history', dict(operations=list(h.log)), r[2], r[3])
+                break
+
+    # ---- B. slices: every slice form x base dtype x contribution-dtype order x add/assign pattern x value kinds
+    for shape in STRESS_SHAPES:
+        cat = slice_catalog(shape)
+        size = int(np.prod(shape))
+        for (path, idx, rshape, res_is_arr) in cat:
+            for sdt in 'ifc':
+                for order in DTYPE_ORDERS[sdt]:
+                    for how in HOW_PATTERNS:
+                        for kinds in KIND_PATTERNS:
+                            ctx.search_evaluations += 1
+                            ctx.count('stress:slice-accumulate')
+                            slice_case(ctx, pym, src, bad, shape, size, path, idx, rshape, sdt, order, how, kinds)
+
+    # ---- C. rank-0 array states
+    for sdt in 'ifc':
+        for ix in (Ellipsis, ()):
+            ctx.search_evaluations += 1
+            ctx.count('stress:rank0-state')
+            st = src.make('a0', sdt)
+            st0 = st.copy()
+            sig = pym.Signal('z', state=st)
+            case = dict(state=desc(st0), index=pstr(ix))
+            if sig.state is not st:
+                bad('a signal holds the state object it was given', 'rank0-state', case)
+            got = sig[ix].state
+            if not same_value(got, st0):
+                bad('slice reads the corresponding entries of the base state', 'rank0-state', case, desc(st0), desc(got))
+            v = src.make(prng.choice(('py', 'a0', 'np')), sdt)
+            sig[ix].state = v
+            if sig.state is not st or not same_value(st, np.asarray(v)) or sig.sensitivity is not None:
+                bad('slice writes exactly its entries of the base state and nothing else', 'rank0-state',
+                    dict(case, value=desc(v)), desc(v), desc(sig.state))
+            for dkind in ('a0', 'py', 'np'):
+                d = src.make(dkind, sdt)
+                d0 = copy.deepcopy(d)
+                z = pym.Signal('z', state=st0.copy())
+                try:
+                    z[ix].add_sensitivity(d)
+                    z[ix].add_sensitivity(d)
+                    ok = same_value(z.sensitivity, np.asarray(d0) * 2)
+                    ctx.count('rank0-state-slice-sens:accumulated')
+                except TypeError:
+                    # `state * 0` of a rank-0 array is a numpy scalar (no item assignment): a loud TypeError, nothing stored
+                    ok = z.sensitivity is None or same_value(z.sensitivity, np.asarray(d0) * 0)
+                    ctx.count('rank0-state-slice-sens:TypeError')
+                if not ok or not same_value(d, d0) or not same_value(z.state, st0):
+                    bad('add through a slice of a rank-0 state accumulates or fails loudly without storing anything',
+                        'rank0-state', dict(case, ds=desc(d0)), desc(np.asarray(d0) * 2), desc(z.sensitivity))
+
+    # ---- D. signals constructed WITH a sensitivity (allocation kept by default): explicit and default reset arguments
+    for k1, dt1, shp in firsts:
+        for first_reset in (None, True, False):
+            ctx.search_evaluations += 1
+            ctx.count('stress:constructed-with-sensitivity')
+            x = src.make(k1, dt1, shp)
+            x0 = copy.deepcopy(x)
+            d = src.make(k1, dt1, shp)
+            d0 = copy.deepcopy(d)
+            log = [f'x = {desc(x0)}', f'd = {desc(d0)}', "k = pym.Signal('k', sensitivity=x)"]
+            case = dict(value=f'{k1}:{dt1}:{list(shp)}', operations=log)
+            try:
+                k = pym.Signal('k', sensitivity=x)
+                log.append(f'k.reset({"" if first_reset is None else first_reset})')
+                k.reset() if first_reset is None else k.reset(first_reset)
+                if first_reset is False:
+                    if k.sensitivity is not None:
+                        bad('reset(False) clears the sensitivity (explicit argument overrides the kept allocation)',
+                            'constructed-with-sensitivity', case, 'None', desc(k.sensitivity))
+                        continue
+                    if not same_value(x, x0):
+                        bad('reset(False) releases the object instead of zeroing it', 'constructed-with-sensitivity',
+                            case, desc(x0), desc(x))
+                        continue
+                else:
+                    if not same_value(k.sensitivity, np.asarray(x0) * 0) or (is_arr(x) and k.sensitivity is not x):
+                        bad('reset with kept allocation zeroes the sensitivity in place (same object)',
+                            'constructed-with-sensitivity', case, desc(np.asarray(x0) * 0), desc(k.sensitivity))
+                        continue
+                log.append('k.add_sensitivity(d)')
+                k.add_sensitivity(d)
+                log.append('k.add_sensitivity(d)')
+                k.add_sensitivity(d)
+                if not same_value(k.sensitivity, np.asarray(d0) * 2) or not same_value(d, d0) or overlap(k.sensitivity, d):
+                    bad('contributions accumulate after a reset and the added object is never aliased',
+                        'constructed-with-sensitivity', case, desc(np.asarray(d0) * 2), desc(k.sensitivity))
+                    continue
+                if first_reset is False and is_arr(x) and (overlap(k.sensitivity, x) or not same_value(x, x0)):
+                    bad('after reset(False) the signal no longer writes into the released array',
+                        'constructed-with-sensitivity', case, desc(x0), desc(x))
+                    continue
+                log.append('k.reset(False)')
+                k.reset(False)
+                if k.sensitivity is not None:
+                    bad('reset(False) clears the sensitivity (explicit argument overrides the kept allocation)',
+                        'constructed-with-sensitivity', case, 'None', desc(k.sensitivity))
+            except Exception as e:
+                bad('protocol operations on well-formed values do not raise', 'constructed-with-sensitivity', case, None,
+                    repr(e)[:300])
+
+
+def slice_case(ctx, pym, src, bad, shape, size, path, idx, rshape, sdt, order, how, kinds):
+    B = src.make('arr', sdt, shape)
+    B0 = B.copy()
+    p0, p1 = pym.Signal('p0', state=B), pym.Signal('p1', state=B.copy())
+    s0, s1 = p0, p1
+    for p in path:
+        s0, s1 = s0[p], s1[p]
+    pth = ''.join(f'[{pstr(p)}]' for p in path)
+    log = [f"B = {desc(B0)}", "p0 = pym.Signal('p0', state=B); p1 = pym.Signal('p1', state=B.copy())"]
+    case = dict(base_shape=list(shape), base_dtype=str(B.dtype), slice=pth, contribution_dtypes=order, pattern=how,
+                value_kinds=list(kinds[:len(order)]), operations=log)
+    ref = [None, None]                                  # flat complex reference of p0 / p1 sensitivities
+    held = []
+
+    def apply(r, h, v):
+        r = np.zeros(size, dtype=complex) if r is None else r.copy()
+        vv = np.broadcast_to(np.asarray(v), rshape).ravel()
+        r[idx] = (r[idx] + vv) if h == 'a' else vv
+        return r
+
+    def check(where):
+        for j, sg in enumerate((p0, p1)):
+            g = sg.sensitivity
+            if ref[j] is None:
+                if g is not None:
+                    bad('a base without contributions has no sensitivity', 'slice-accumulate', case, 'None', desc(g))
+                    return False
+                continue
+            if not is_arr(g) or g.shape != tuple(shape) or not np.array_equal(g.ravel(), ref[j]):
+                bad('sensitivities added through a slice are accumulated into exactly those entries of the base '
+                    '(zero sensitivity of the base\'s shape created when none exists)', 'slice-accumulate', case,
+                    f'p{j}.sensitivity.ravel() == {ref[j].tolist()}', f'{where}: p{j}.sensitivity = {desc(g)}')
+                return False
+            if overlap(g, sg.state) or any(overlap(g, h) for h in held) or (j == 1 and overlap(g, p0.sensitivity)):
+                bad('a value passed to add_sensitivity is never aliased', 'slice-accumulate', case, 'no shared memory',
+                    f'{where}: p{j}.sensitivity shares memory with the state, a contribution or the other signal')
+                return False
+        if not np.array_equal(p0.state, B0) or not np.array_equal(p1.state, B0):
+            bad('operations on the sensitivity do not change the state', 'slice-accumulate', case, desc(B0), desc(p0.state))
+            return False
+        return True
+
+    try:
+        for k, dt in enumerate(order):
+            kd = kinds[k]
+            v = src.make(kd if kd != 'arr' else ('arr' if rshape else 'a0'), dt, rshape)
+            v0 = copy.deepcopy(v)
+            held.append(v)
+            h = how[k]
+            for j, s in enumerate((s0, s1)):
+                if j == 1 and k > 0:
+                    continue                           # p1 receives the FIRST object only and must keep exactly that
+                if h == 'a':
+                    log.append(f'p{j}{pth}.add_sensitivity(v{k})   # v{k} = {desc(v0)}')
+                    s.add_sensitivity(v)
+                else:
+                    log.append(f'p{j}{pth}.sensitivity = v{k}   # v{k} = {desc(v0)}')
+                    s.sensitivity = v
+                ref[j] = apply(ref[j], h, v0)
+            if not same_value(v, v0):
+                bad('a value passed to add_sensitivity is never aliased: the caller\'s object is not changed',
+                    'slice-accumulate', case, desc(v0), desc(v))
+                return
+            if not check(f'after operation {k}'):
+                return
+        # reads through the slice, then changing the contributions afterwards, then resetting the slice
+        g = s0.sensitivity
+        if np.shape(g) != tuple(rshape) or not np.array_equal(np.asarray(g).ravel(), ref[0][idx]):
+            bad('a slice reads the corresponding entries of the base sensitivity', 'slice-accumulate', case,
+                str(ref[0][idx].tolist()), desc(g))
+            return
+        for k, v in enumerate(held):
+            if is_arr(v):
+                log.append(f'v{k}[...] = 77')
+                v[...] = 77
+        if not check('after changing the contributed objects'):
+            return
+        log.append(f'p0{pth}.reset()')
+        s0.reset()
+        ref[0] = ref[0].copy()
+        ref[0][idx] = 0
+        check('after resetting the slice')
+    except Exception as e:
+        bad('protocol operations on well-formed slices do not raise', 'slice-accumulate', case, None, repr(e)[:300])
 
 
 if __name__ == '__main__':
